@@ -1132,7 +1132,16 @@ def case_kmers(cls, params, rec, bulk=False):
 	if sc is not None:
 		kw["scores"] = torch.tensor(sc, dtype=torch.float64).type(TD[
 			params.get("s_dtype", "float32")]).reshape(B, L)
-	mon = gen.Immutable(X=X, scores=kw.get("scores"))
+	lay = gen.layout_of(params)
+	X, xbase = gen.relayout(X, lay)
+	sbase = None
+	if "scores" in kw:
+		kw["scores"], sbase = gen.relayout(kw["scores"], gen.layout_of(params,
+			"scores"))
+	if not bulk:
+		rec.setadd("layouts", lay)
+	mon = gen.Immutable(X=X, Xbase=xbase, sbase=sbase,
+		scores=kw.get("scores"))
 	st, val = qcall(kmers, X, k, **kw) if params.get("k_positional", True) \
 		else qcall(kmers, X, k=k, **kw)
 	if mon.changed():
